@@ -709,7 +709,37 @@ pub fn run_and_record(h: &History, want: &str, rep: &mut Report, sample: bool) {
         rep.sample(h.brief());
     }
     if let Some(v) = execute(h, want, rep, None) {
-        rep.violate(v);
+        rep.violate(shrink(h, want, v));
+    }
+}
+
+fn total_ticks(ops: &[Op]) -> u64 {
+    ops.iter().map(|o| if let Op::Tick(n) = o { *n } else { 1 }).sum()
+}
+
+/// greedy delta debugging on the op list while the same clause keeps firing (short histories only)
+pub fn shrink(h: &History, want: &str, v: Violation) -> Violation {
+    // only the part up to the failing call matters
+    let cut = Text::parse(&v.replay).ok().and_then(|t| History::parse(&t).ok());
+    let base = match cut {
+        Some(c) => c,
+        None => return v,
+    };
+    if base.ops.len() > 3000 || total_ticks(&base.ops) > 300_000 {
+        return v;
+    }
+    let sig = v.signature.clone();
+    let fails = |ops: &[Op]| {
+        let hh = History { fs: h.fs, ops: ops.to_vec() };
+        let mut scratch = Report::new();
+        matches!(execute(&hh, want, &mut scratch, None), Some(x) if x.signature == sig)
+    };
+    let ops = crate::report::shrink_ops(&base.ops, 600, fails);
+    let hh = History { fs: h.fs, ops };
+    let mut scratch = Report::new();
+    match execute(&hh, want, &mut scratch, None) {
+        Some(x) if x.signature == sig => x,
+        _ => v,
     }
 }
 
